@@ -2366,6 +2366,13 @@ def BHJM_cylinder_segment(
     r1 = abs(r1)
     r2 = abs(r2)
     h = abs(h)
+
+    # the surface tests and the case selection below compare lengths with absolute
+    # tolerances: work in units of the outer radius (the field of a homogeneously
+    # magnetized body does not depend on the length unit)
+    scale = np.where(r2 > 0, r2, 1.0)
+    r1, r2, h = r1 / scale, r2 / scale, h / scale
+    observers = (observers.T / scale).T
     z1, z2 = -h / 2, h / 2
 
     # transform dim deg->rad
